@@ -137,10 +137,16 @@ def check_case(ctx, c, k_cache):
     fl = flags_of(c['ids'], c.get('version', 33))
     fl['scoped'] = c.get('scoped', True)
     fl['zero_count_bitmap'] = zero_count_bitmap(c.get('impl_dec'))
+    # the hypothesis of the proved theorem C08_compile_exec_equiv, evaluated by the extracted model
+    fl['ok_c08'] = bool(c.get('okc08'))
     e = c['impl_enc']
     # --- encode: compiled vs interpreted (implementation), compiled (model)
     cc = dict(c)
     ec = P.impl_encode(cc, compiled_template_cache_max=k_cache)
+    if fl['ok_c08'] and ((e[0], e[1]) != (ec[0], ec[1]) or (e[0] == 'ok' and e[3] != ec[3])):
+        ctx.violation(dict(kind='C08-theorem-hypotheses-hold-but-encode-differs', case=case, interpreted=repr(e[:2])[:200],
+                           compiled=repr(ec[:2])[:200], **fl),
+                      'ok_c08 holds (the theorem applies) but encoding with and without compilation differs, ids=%s' % c['ids'])
     if fl['scoped'] and ((e[0], e[1]) != (ec[0], ec[1]) or (e[0] == 'ok' and e[3] != ec[3])):
         rec = dict(kind='C08-encode-compiled-differs', case=case, interpreted=repr(e[:2])[:200], compiled=repr(ec[:2])[:200], **fl)
         ctx.violation(rec, 'encoding with and without template compilation differs, ids=%s' % c['ids'])
@@ -156,6 +162,10 @@ def check_case(ctx, c, k_cache):
     # --- decode
     di = c.get('impl_dec') or dec_impl(e[3])
     dc = dec_impl(e[3], compiled_template_cache_max=k_cache)
+    if fl['ok_c08'] and not same_dec(di, dc):
+        ctx.violation(dict(kind='C08-theorem-hypotheses-hold-but-decode-differs', case=case, interpreted=repr(di)[:300],
+                           compiled=repr(dc)[:300], **fl),
+                      'ok_c08 holds (the theorem applies) but decoding with and without compilation differs, ids=%s' % c['ids'])
     if fl['scoped'] and not same_dec(di, dc):
         rec = dict(kind='C08-decode-compiled-differs', case=case, interpreted=repr(di)[:300], compiled=repr(dc)[:300], **fl)
         ctx.violation(rec, 'decoding with and without template compilation differs, ids=%s' % c['ids'])
@@ -236,6 +246,11 @@ def run(ctx):
     live = [c for c in cases if c.get('toks')]
     for c, o in zip(live, lib.run_model_sharded(['scoped ' + c['toks'] for c in live])):
         c['scoped'] = (o == 'true')
+    for c, o in zip(live, lib.run_model_sharded(['okc08 ' + c['toks'] for c in live])):
+        c['okc08'] = (o == 'true')
+    for c, o in zip(live, lib.run_model_sharded(['okc08nz ' + c['toks'] for c in live])):
+        c['okc08nz'] = (o == 'true')
+    rejected = []
     P.run_gen(cases)
     P.run_encode(cases)
     P.run_decode(cases)
@@ -247,6 +262,13 @@ def run(ctx):
         for f in c['features']:
             ctx.dist[f] += 1
         ctx.dist['scoped' if c.get('scoped') else 'NOT-scoped (only the model tie is checked)'] += 1
+        ctx.dist['ok_c08 (hypothesis of the proved theorem holds)' if c.get('okc08') else 'not ok_c08'] += 1
+        if c.get('scoped') and not c.get('okc08'):
+            ctx.dist['scoped but not ok_c08'] += 1
+            if c.get('okc08nz'):
+                ctx.dist['scoped, not ok_c08, but ok_c08_nz (bitmap / class 33 under a delayed replication: D19, D28)'] += 1
+            else:
+                rejected.append(c['ids'])
         ctx.count((tuple(c['ids']), c['seed']), True)
         k_cache = rng.choice([0, 1, 2, 5])
         ctx.dist['cache-max-%d' % k_cache] += 1
@@ -257,6 +279,7 @@ def run(ctx):
                                                      or zero_count_bitmap(di)):
             good.append((c, di))
         ctx.sample({'ids': c['ids'], 'cache_max': k_cache}, limit=3)
+    ctx.extra['scoped_rejected_by_ok_c08_and_ok_c08_nz'] = rejected[:40]
     # save / load: templates with marker operators first (their recorded state_properties travel through the JSON)
     marker_first = sorted(good, key=lambda x: 0 if any(k.startswith('marker-under') for k in x[0]['features']) else
                           1 if any(i in MARKERS for i in x[0]['ids']) else 2)
@@ -283,8 +306,11 @@ def run(ctx):
                 ctx.violation(dict(kind='C08-cache-history', case={'ids': c['ids'], 'seed': c['seed'], 'forced': c['forced'],
                                                                    'nsub': c['nsub'], 'cache_max': k}, **flags_of(c['ids'], c.get('version', 33))),
                               'decode through a shared compiled-template cache (max %d) differs from a fresh decode' % k)
-    ctx.partial = ['compile_exec: the unbounded Coq statement is proved for straight-line and replication fragments (see C08.v); '
-                   'templates with marker operators under 204YYY / after 203000 / zero-count bitmap loops are recorded findings']
+    ctx.partial = ['compile_exec is proved for every template satisfying the executable side condition ok_c08 (CompileChk.v), '
+                   'for all primitive families, with the same error on failure (C08_compile_exec_equiv and the four coder '
+                   'corollaries); outside ok_c08 the statement is false of the model and of the implementation: D14, D5, D19 and '
+                   'the _refuted witnesses in C08.v; save/load is proved only for templates whose recorded descriptors are '
+                   're-found by id (no pseudo descriptors: D7)']
     ctx.assumptions = ['cache transparency at model level is C13\'s ct_get_pure; here the implementation cache is exercised by histories']
 
 
